@@ -81,6 +81,7 @@ type pathState struct {
 	pcStr   []string
 	nDecide int // decisions that needed the solver on this path
 	em      smtEmitter
+	asserts  int64
 	syncMaps map[*value]*omap
 	ufCalls  []ufCall
 	// obligations
@@ -509,6 +510,7 @@ func (i *interpreter) intrinsicAssume(c value) {
 }
 
 func (i *interpreter) intrinsicAssert(c value, msg string) {
+	i.ps.asserts++
 	t := termOf(c)
 	if !i.obligation(t) {
 		panic(pathAbort{kind: abortAssertFail, msg: msg})
